@@ -28,8 +28,11 @@ def sh(cmd, cwd=None, timeout=900, env=None, log=None):
     """run in its own session, kill the group afterwards; returns (rc, output tail)"""
     out = log or '/var/tmp/verif-selftest-%d.log' % os.getpid()
     with open(out, 'w') as fh:
+        def _defaults():       # a background shell hands down ignored SIGINT / SIGQUIT
+            for s in (signal.SIGINT, signal.SIGQUIT, signal.SIGHUP):
+                signal.signal(s, signal.SIG_DFL)
         p = subprocess.Popen(cmd, cwd=cwd, env=env, stdout=fh, stderr=subprocess.STDOUT,
-                             start_new_session=True, shell=isinstance(cmd, str))
+                             start_new_session=True, shell=isinstance(cmd, str), preexec_fn=_defaults)
         t0 = time.time()
         rc = None
         while time.time() - t0 < timeout:
